@@ -278,6 +278,10 @@ func bvLit(dec string, w int) string {
 // Type tags ----------------------------------------------------------------------------------
 
 func (e *Enc) typeTag(t types.Type) int {
+	// byte and rune are aliases of uint8 and int32: one tag per identical type
+	if b, ok := t.(*types.Basic); ok && b.Kind() <= types.UnsafePointer && b.Kind() > types.Invalid {
+		t = types.Typ[b.Kind()]
+	}
 	k := types.TypeString(t, nil)
 	if id, ok := e.tags[k]; ok {
 		return id
